@@ -61,6 +61,11 @@ class Graph:
         self.entry = None
         self.rets = []
         self.unwinds = []
+        self.via_of = {}
+
+    def vias(self, n):
+        """names of the std combinators whose closure arguments enclose node n (outermost first)"""
+        return tuple(self.via_of.get(c) for c in n['ctx'] if self.via_of.get(c))
 
     def new(self, kind, fn, ctx, bb=None, sp=None, **kw):
         n = {'id': len(self.nodes), 'kind': kind, 'fn': fn, 'ctx': ctx, 'bb': bb, 'sp': sp, 'succ': []}
@@ -339,6 +344,7 @@ def _call(g, fx, key, ctx, bi, t, cur, starts, unws, tr, depth, max_depth, do_in
             else:
                 amap[2 + i] = ('unknown', 'cbarg%d of %s' % (i, name))
         nctx = ctx + ((key, bi, cd),)
+        g.via_of[(key, bi, cd)] = name
         j = g.new('join', key, ctx, bb=bi, sp=sp)
         g.edge(after, j)
         enter = g.new('enter', key, ctx, bb=bi, sp=sp, name='<closure>', callee=None, args=[a], arg_tys=[aty], value=('unknown', 'closure result'), dest=None, fnptr=None, body=cd, via=name)
